@@ -82,6 +82,9 @@ Proof.
     destruct (prunG env I (embed sk) [eval_arg a p c] w g) as [[e1 w1] g1].
     destruct (runG env I sk (eval_arg a p c) None w g) as [[c1 w1'] g1']. simpl in Hw, Hg. subst w1' g1'.
     simpl. auto.
+  - (* Reseed *)
+    destruct R as [R0 R1]. simpl. destruct (seed_from gstate value req seed I t w) as [c1 w1]. unfold repr. cbn [fst snd].
+    destruct e as [|x0 [|x1 r]]; simpl in *; auto.
 Qed.
 
 (* one call: the embedded skeleton returns the same outcome and leaves the same global state *)
@@ -282,6 +285,9 @@ Proof.
     destruct (gfw sk (aeval (embed_arg a) A) WSafe) as [c1|].
     + destruct IHsk as (A1 & E1 & _). rewrite E1. exists A. repeat split; auto.
     + now rewrite IHsk.
+  - (* Reseed *)
+    exists (aset 1 WSafe A). split; [reflexivity|]. split; [apply alook_aset_eq|].
+    intros x N. apply alook_aset_neq. congruence.
 Qed.
 
 Theorem pglobal_free_embed : forall sk, pglobal_free (embed sk) = global_free_w sk.
